@@ -136,6 +136,14 @@ func scratchRoot() string {
 	tmpRootOnce.Do(func() {
 		for _, base := range []string{"/dev/shm", filepath.Join(envOr("VERIF_BUILD_DIR", "/verif/build"), "tmp")} {
 			_ = os.MkdirAll(base, 0o755)
+			// hygiene: a run killed by the outer watchdog cannot clean up after itself
+			if old, _ := filepath.Glob(filepath.Join(base, "verif-c18-*")); len(old) > 0 {
+				for _, o := range old {
+					if fi, err := os.Stat(o); err == nil && time.Since(fi.ModTime()) > 3*time.Hour {
+						_ = os.RemoveAll(o)
+					}
+				}
+			}
 			d, err := os.MkdirTemp(base, "verif-c18-")
 			if err == nil {
 				tmpRoot = d
